@@ -3,6 +3,8 @@ package smf
 // C12: playback sends every playable event once, in file order, never early.
 
 import (
+	"bytes"
+
 	midi "gitlab.com/gomidi/midi/v2"
 	"gitlab.com/gomidi/midi/v2/drivers"
 	zz "gitlab.com/gomidi/midi/v2/internal/zzverif"
@@ -82,6 +84,35 @@ func VerifC12Play() {
 	ports := []*c12port{{0, log}, {1, log}}
 	// message type filter (Only): every message matching at least one listed type is played once, the others not at all
 	rd := &TracksReader{smf: s, tracks: sel}
+	if zz.Param("viafile") == 1 {
+		// through the public constructor: the file is written, read back, and the selection is a list of track
+		// numbers that may name a track the file does not have (no track listed = all tracks)
+		var buf bytes.Buffer
+		_, werr := s.WriteTo(&buf)
+		zz.Assert(werr == nil, "play:file-written")
+		var list []int
+		for t := range selected {
+			selected[t] = false
+		}
+		for t := 0; t <= T; t++ {
+			if zz.Choice("list-track", 2) == 1 {
+				list = append(list, t)
+				if t < T {
+					selected[t] = true
+				}
+			}
+		}
+		if len(list) == 0 {
+			for t := range selected {
+				selected[t] = true
+			}
+		}
+		rd = ReadTracksFrom(bytes.NewReader(buf.Bytes()), list...)
+		zz.Assert(rd.Error() == nil, "play:file-read")
+		if rd.Error() != nil {
+			return
+		}
+	}
 	matches := true
 	if zz.Param("filter") == 1 {
 		switch zz.Choice("only", 5) {
